@@ -135,6 +135,11 @@ func Handover(c *core.Ctx, rule string, p *packages.Package) {
 					return false
 				})
 				key := name + "/" + tn + "." + f
+				// the clearing store must reach the caller's builder: a value receiver clears a copy
+				if _, isPtr := m.recv.Type().(*types.Pointer); cleared && !isPtr {
+					c.Add(rule, key, m.fd.Pos(), core.Violated, name+" hands out "+f+" and assigns "+f+" = nil on a value receiver: the assignment clears a copy, the caller's builder keeps the published trie and later Adds modify the collection that was handed out")
+					continue
+				}
 				if cleared {
 					c.Add(rule, key, m.fd.Pos(), core.Discharged, "hands out "+f+" and clears it")
 				} else {
